@@ -27,7 +27,9 @@ BUDGET = {"quick": {"plain": 30000, "max_s": 100},
           "thorough": {"plain": 1000000, "max_s": 1500}}
 RULE = ("one run = one seeded history (20-70 calls) applied to a C replica "
         "and a Python replica of one configuration, about a third of the "
-        "calls carrying an out-of-domain argument; distinct non-trivial = "
+        "calls carrying an out-of-domain argument or an operand iterator "
+        "that fails after its last item, lazy sequences probed repeatedly; "
+        "distinct non-trivial = "
         "distinct (family class, kind, operation, argument classes, tree "
         "height class, outcome class) tuples on which both replicas were "
         "compared")
